@@ -34,8 +34,8 @@ struct lex_ghost {
 extern struct lex_ghost __verif_lx;
 /* the token array's block: result of the first malloc (realloc grows it in place); NULL until then.  Set by
  * the ghost statement `__verif_tok = tokens;` right after that malloc.  Kept OUTSIDE __verif_lx: it is assigned
- * once, before the main loop, is not a loop assigns target and therefore stays a constant of the symbolic
- * execution inside the loop (see the ghost statements at the top of the loop body). */
+ * once, before the main loop, and is not a loop assigns target (so it is not havocked at the loop head and the
+ * invariant `tokens == __verif_tok` pins the havocked pointer to a known block). */
 extern const void *__verif_tok;
 extern size_t __verif_len;     /* ghost: length of the source buffer; never assigned */
 extern size_t __verif_S;       /* ghost: usable size of the token array's block; never assigned (see below) */
